@@ -77,7 +77,8 @@ func c17(r *Report) {
 	// crypto.JWTKidAlg / ParseJWT
 	kidAlg := p.Func("crypto", "", "JWTKidAlg")
 	r.Gate(Gate{ID: "C17.one-signature", Fn: kidAlg, Effect: SuccessReturn(), Check: oneSig})
-	r.Gate(Gate{ID: "C17.parse", Fn: kidAlg, Effect: SuccessReturn(), Check: ErrCheck(Fn(jwsPkg, "", "ParseString"))})
+	r.Gate(Gate{ID: "C17.parse", Fn: kidAlg, Effect: SuccessReturn(), Check: compactParse()})
+	compactOnlyEverywhere(r, "C17.compact-only")
 	pj := p.Func("crypto", "", "ParseJWT")
 	verifyCall := CallEffect(Fn(jwtPkg, "", "ParseString"))
 	r.Gate(Gate{ID: "C17.parsejwt.one-signature", Fn: pj, Effect: verifyCall, Check: ErrCheck(Fn("crypto", "", "JWTKidAlg"))})
@@ -141,6 +142,9 @@ func c17(r *Report) {
 	// LDProof.Verify
 	ld := p.Func("vcr/signature/proof", "LDProof", "Verify")
 	r.Gate(Gate{ID: "C17.ldproof.single", Fn: ld, Effect: SuccessReturn(), Check: CmpCheck("len(strings.Split(jws, \"..\")) == 2", token.EQL, LenV(CallV(Fn("std:strings", "", "Split"), -1)), IntV(2), true)})
+	// exactly one proof: the single-proof reader decodes the document's whole `proof` member into one proof struct, so an
+	// array of proofs (of which only one would be verified) fails to decode instead of being unwrapped
+	r.ArgIs("C17.ldproof.whole-proof-member-is-decoded", p.Func("vcr/signature/proof", "SignedDocument", "UnmarshalProofValue"), Fn("std:encoding/json", "", "Marshal"), 0, LookupV(ParamV("d"), "proof"), 1)
 	r.Gate(Gate{ID: "C17.ldproof.verified", Fn: ld, Effect: SuccessReturn(), Check: ErrCheck(Fn(jwsPkg, "Verifier", "Verify"))})
 	r.Gate(Gate{ID: "C17.ldproof.alg-from-key", Fn: ld, Effect: CallEffect(Fn(jwsPkg, "", "NewVerifier")), Check: ErrCheck(Fn("crypto", "", "SignatureAlgorithm"))})
 	c17ArgFrom(r, "C17.ldproof.alg-arg", ld, Fn(jwsPkg, "", "NewVerifier"), 0, CallV(Fn("crypto", "", "SignatureAlgorithm"), 0), "the verifier algorithm is derived from the resolved key, not from the token")
